@@ -80,7 +80,27 @@ def check_program(shard, src, argv, alphabet, histories, max_len=4):
 
 
 @st.composite
+def greedy_overlap_program(draw):
+    """Greedy cases in which three or more patterns can finish on the same input (priority resolution iterates over sets of
+    identity-hashed objects)."""
+    pats = draw(st.permutations([("re", ("op", ("set", (("r", 0x61, 0x62),), False), "+"), False), ("lit", b"ab", "str"), ("lit", b"a", "str"),
+                                 ("re", ("op", ("set", (("r", 0x61, 0x62), ("c", 0x30)), False), "+"), False),
+                                 ("re", ("seq", (("lit", 0x61), ("op", ("cls", "w"), "*"))), False)]))[:draw(st.integers(3, 4))]
+    clauses = []
+    for i, p in enumerate(pats):
+        body = (("assign", "n0", ("num", i + 1, "dec")),) + ((("match", ("lit", b"!", "str")),) if draw(st.booleans()) else ())
+        clauses.append(((p,), draw(st.sampled_from([None, 0, 1, 1, 2])), body))
+    prog = ir.Program([("int", "n0", True, None, 0)], [], [], [], [], (("case", True, tuple(clauses)), ("match", ("lit", b";", "str"))),
+                      [draw(st.sampled_from(gen.OPT_LEVELS))])
+    return prog
+
+
+@st.composite
 def case_strategy(draw):
+    if draw(st.integers(0, 2)) == 0:
+        prog = draw(greedy_overlap_program())
+        hist = [[(prog.source().replace("prio 1", "prio 3"), list(prog.argv))], [("parser { /(a|b)+c/; }", ["-O3"]), ("parser { case { \"a\" -> {} \"a\" -> {} } }", [])]]
+        return prog.source(), list(prog.argv), [0x61, 0x62, 0x30, 0x21, 0x3b], hist
     mode = draw(st.sampled_from(["plain", "plain", "yield", "eof"]))
     cfg = gen.GenConfig(max_depth=2, max_stmts=5, allow_yield=(mode == "yield"), allow_end=(mode == "eof"), regex_weight=7,
                         kinds={"yield": 2 if mode == "yield" else 0, "case": 8, "match": 8, "try": 2, "loop": 2, "append": 3}, valid_bias=0.8)
